@@ -144,7 +144,14 @@ mix_run(Params *p)
 		nng_msg *m = tag_msg(40, (uint16_t) (c->idx + 1), 0, 1);
 		c->t_send  = sim_now_ns();
 		c->stall0  = sim_stall_total_ns();
-		int rv     = nng_ctx_sendmsg(c->ctx, m, 0);
+		int rv;
+		{
+			// a reachable replier exists: the request must get onto a connection
+			Bounded g("C12", "reply_never_arrived", 3000000000ull,
+			    "sending the request of ctx%d (replier reachable, %d connection(s) refused by the application in ADD_PRE)",
+			    c->idx, rejects);
+			rv = nng_ctx_sendmsg(c->ctx, m, 0);
+		}
 		if (rv != 0)
 			VIOL("request_send_failed", "ctx%d send returned %d", c->idx, rv);
 		sim_event("ctx%d: request sent (resend %d ms, first %d transmissions ignored%s)", c->idx, c->resend, c->drops,
